@@ -1163,7 +1163,7 @@ func (ex *Exec) callInterface(st *State, call *ast.CallExpr, s *types.Selection,
 		r := BVar("r", SInt)
 		cond := []*Term{Lt(r, ctrBefore)}
 		if kind == frameParams {
-			for _, p := range refs {
+			for _, p := range exclusionsFor(h, refs) {
 				cond = append(cond, Neq(r, p))
 			}
 		}
